@@ -35,7 +35,16 @@ def batched(out):
 
 def convert(steps, batch=True):
     out = _convert(steps)
-    return batched(out) if batch else out
+    out = batched(out) if batch else out
+    # single submissions alternate between the certifier service called directly (flag set by the harness, as the
+    # message-queue consumer does) and the steps of the HTTP route with the real authenticator
+    k = 0
+    for a in out:
+        if a["a"] == "Sign":
+            if k % 2 == 1:
+                a["via"] = "http"
+            k += 1
+    return out
 
 
 def _convert(steps):
